@@ -754,6 +754,20 @@ func (ex *Exec) checkCallsite(fr *Frame, key string, callee *ssa.Function, args 
 				env.vars["$"+p.Name()] = args[i]
 			}
 		}
+	} else {
+		var cc *Contract
+		if c := ex.specs.Contracts[key]; c != nil {
+			cc = c
+		} else if c := ex.specs.Contracts["extern "+key]; c != nil {
+			cc = c
+		}
+		if cc != nil {
+			for i, p := range cc.Params {
+				if i < len(args) {
+					env.vars["$"+p] = args[i]
+				}
+			}
+		}
 	}
 	for _, cl := range cls {
 		g := env.boolTerm(cl.Expr)
